@@ -1,4 +1,5 @@
 """Path explorer (decision replay) and solver wrapper."""
+import os
 import time
 from fractions import Fraction
 
@@ -9,6 +10,10 @@ from .scalars import ST, PathAbort, SymUnsupported
 
 
 class Budget(Exception):
+    pass
+
+
+class CrossSolverDisagreement(Exception):
     pass
 
 
@@ -43,6 +48,11 @@ class Stats(object):
         self.q_unknown = 0
         self.solver_s = 0.0
         self.branch_unknown = 0
+        self.cross_checked = 0       # claim queries re-decided by cvc5 from the SMT-LIB dump of the z3 solver state
+        self.cross_agree = 0
+        self.cross_unknown = 0
+        self.cross_disagree = 0
+        self.cross_s = 0.0
 
     def as_dict(self):
         return dict(self.__dict__)
@@ -73,6 +83,10 @@ class Engine(object):
         self.model = None
         self.root_prefix = None
         self.fast_fail = False
+        try:
+            self.cross_budget = int(os.environ.get('VF_CROSS', '0') or 0)   # cross-checked claim queries per obligation
+        except ValueError:
+            self.cross_budget = 0
         S.reset_atoms()
         ST.engine = self
 
@@ -274,9 +288,11 @@ class Engine(object):
             self.stats.queries += 1
             if r == z3.sat:
                 self.stats.q_sat += 1
+                self._cross('sat')
                 return 'sat', self.solver.model()
             if r == z3.unsat:
                 self.stats.q_unsat += 1
+                self._cross('unsat')
                 return 'unsat', None
             # retry with the nlsat tactic on the flattened formula
             if self.fast_fail:
@@ -294,6 +310,44 @@ class Engine(object):
             self.solver.pop()
             if timeout_ms:
                 self.solver.set('timeout', self.timeout_ms)
+
+    def _cross(self, verdict):
+        """Second back end: the current z3 solver state (preconditions, path condition, definitions, negated claim) is
+        dumped as SMT-LIB 2 and decided again by cvc5.  A definite answer that differs from z3's is a harness error
+        (CrossSolverDisagreement); cvc5 'unknown'/timeouts are only counted."""
+        if self.cross_budget <= 0 or self.stats.cross_checked >= self.cross_budget:
+            return
+        try:
+            import cvc5
+        except ImportError:
+            return
+        t = time.time()
+        got = 'unknown'
+        try:
+            txt = self.solver.to_smt2().replace('(check-sat)', '')
+            slv = cvc5.Solver()
+            slv.setOption('tlimit-per', os.environ.get('VF_CROSS_MS', '10000'))
+            sm = cvc5.SymbolManager(slv)
+            prs = cvc5.InputParser(slv, sm)
+            prs.setStringInput(cvc5.InputLanguage.SMT_LIB_2_6, '(set-logic ALL)\n' + txt, 'q')
+            while True:
+                cmd = prs.nextCommand()
+                if cmd.isNull():
+                    break
+                cmd.invoke(slv, sm)
+            r = slv.checkSat()
+            got = 'sat' if r.isSat() else ('unsat' if r.isUnsat() else 'unknown')
+        except Exception:
+            got = 'unknown'
+        self.stats.cross_checked += 1
+        self.stats.cross_s += time.time() - t
+        if got == 'unknown':
+            self.stats.cross_unknown += 1
+        elif got == verdict:
+            self.stats.cross_agree += 1
+        else:
+            self.stats.cross_disagree += 1
+            raise CrossSolverDisagreement('z3 says %s, cvc5 says %s on the same SMT-LIB query' % (verdict, got))
 
     def _retry_nlsat(self, neg_claim, timeout_ms):
         try:
